@@ -1,0 +1,95 @@
+//go:build verif
+
+package mast
+
+import "unsafe"
+
+// Verification hooks (build tag "verif"): read-only views of the in-memory
+// node graph for the correspondence harness under /verif. Not compiled
+// otherwise.
+
+// VerifLink describes one child link: Kind is "nil", "ptr" (in-memory node,
+// identified by ID) or "name" (persisted node).
+type VerifLink struct {
+	Kind string
+	ID   uintptr
+	Name string
+}
+
+// VerifNode is a snapshot of one in-memory node object.
+type VerifNode struct {
+	ID        uintptr
+	Keys      []interface{}
+	Values    []interface{}
+	Links     []VerifLink
+	Dirty     bool
+	Shared    bool
+	HasSource bool
+	Source    string
+}
+
+func verifLink(l interface{}) VerifLink {
+	switch x := l.(type) {
+	case nil:
+		return VerifLink{Kind: "nil"}
+	case string:
+		return VerifLink{Kind: "name", Name: x}
+	case *mastNode:
+		return VerifLink{Kind: "ptr", ID: uintptr(unsafe.Pointer(x))}
+	}
+	return VerifLink{Kind: "other"}
+}
+
+func verifNode(n *mastNode) VerifNode {
+	v := VerifNode{
+		ID:     uintptr(unsafe.Pointer(n)),
+		Keys:   append([]interface{}{}, n.Key...),
+		Values: append([]interface{}{}, n.Value...),
+		Dirty:  n.dirty,
+		Shared: n.shared,
+	}
+	for _, l := range n.Link {
+		v.Links = append(v.Links, verifLink(l))
+	}
+	if n.source != nil {
+		v.HasSource = true
+		v.Source = *n.source
+	}
+	return v
+}
+
+// VerifDump returns the tree's root link and every in-memory node reachable
+// from it through pointer links, parents before children, each object once.
+func VerifDump(m *Mast) (VerifLink, []VerifNode) {
+	var out []VerifNode
+	seen := map[*mastNode]bool{}
+	var walk func(l interface{})
+	walk = func(l interface{}) {
+		n, ok := l.(*mastNode)
+		if !ok || n == nil || seen[n] {
+			return
+		}
+		seen[n] = true
+		out = append(out, verifNode(n))
+		for _, c := range n.Link {
+			walk(c)
+		}
+	}
+	walk(m.root)
+	return verifLink(m.root), out
+}
+
+// VerifCachedNode snapshots a value held by a NodeCache (nil if it is not a node).
+func VerifCachedNode(v interface{}) *VerifNode {
+	n, ok := v.(*mastNode)
+	if !ok || n == nil {
+		return nil
+	}
+	vn := verifNode(n)
+	return &vn
+}
+
+// VerifThresholds returns growAfterSize and shrinkBelowSize.
+func VerifThresholds(m *Mast) (uint64, uint64) {
+	return m.growAfterSize, m.shrinkBelowSize
+}
